@@ -73,10 +73,11 @@ def order_tie():
 
 def arith_tie(group):
     """group C15: PriceLimitRule.get_limited_price; C19: Market.convert_to_tick_level* / convert_to_price;
-    C03: Market.remain_executable_orders; C16: the two decisions of TradingHaltRule"""
+    C03: Market.remain_executable_orders; C16: the two decisions of TradingHaltRule; C14: the hooks of the two shocks"""
     import py2coq_arith
     files = {"C15": ["pams/events/price_limit_rule.py"], "C19": ["pams/market.py"], "C03": ["pams/market.py"],
-             "C16": ["pams/events/trading_halt_rule.py"]}[group]
+             "C16": ["pams/events/trading_halt_rule.py"],
+             "C14": ["pams/events/fundamental_price_shock.py", "pams/events/order_mistake_shock.py"]}[group]
     return _run_tie(f"translator:{'+'.join(files)}({group} kernel)", [os.path.join(REPO, f) for f in files],
                     lambda: py2coq_arith.translate_all(REPO, groups=(group,)), "ArithGen.v", f"Arith{group}Proofs.v", "ArithGen.")
 
